@@ -351,7 +351,15 @@ impl Plane {
   // FIXME this finalization is needed because the initialization must be fixed and generating plane in canvas must be fixed
   // TODO check if the plane is rectangular.
   pub fn finalize(&mut self) -> Result<()> {
+    if self.content.is_empty() {
+      return Err(plane_is_empty());
+    }
     self.content.remove(self.content.len() - 1);
+    // every row of the plane has the same number of cells, otherwise the drawing is not a table
+    let width = self.content.first().map_or(0, |row| row.len());
+    if width == 0 || self.content.iter().any(|row| row.len() != width) {
+      return Err(invalid_size("rows of the table have different numbers of cells"));
+    }
     Ok(())
   }
   /// Returns rectangle containing input clauses in horizontal table.
@@ -469,8 +477,11 @@ impl Plane {
   /// Checks if rule numbers are placed on the left side below horizontal output double line.
   fn recognize_horizontal_rule_numbers(&self) -> Result<RuleNumbersPlacement> {
     let mut row = 0;
-    while !self.is_horizontal_output_double_line(row, 0) {
+    while row < self.content.len() && !self.is_horizontal_output_double_line(row, 0) {
       row += 1;
+    }
+    if row == self.content.len() {
+      return Ok(RuleNumbersPlacement::NotPresent);
     }
     row += 1;
     let mut max_rule_number = 0;
@@ -501,8 +512,11 @@ impl Plane {
   fn recognize_vertical_rule_numbers(&self) -> Result<RuleNumbersPlacement> {
     let mut col = 0;
     let row = self.content.len() - 1;
-    while !self.is_vertical_output_double_line(row, col) {
+    while col < self.content[row].len() && !self.is_vertical_output_double_line(row, col) {
       col += 1;
+    }
+    if col == self.content[row].len() {
+      return Ok(RuleNumbersPlacement::NotPresent);
     }
     col += 1;
     let mut max_rule_number = 0;
